@@ -16,16 +16,21 @@ package txnprocessor
 //@     op.EquivalentReferences == t.EquivalentReferences }
 //@ spec opsNonNil(ops []*operation.AnchoredOperation) bool { forall q int :: 0 <= q && q < len(ops) ==> ops[q] != nil }
 //
+//@ ghost lastPutFailed bool
+//@ ghost unpubDeletes int
 //@ iface OperationStore.Put
-//@   modifies puts, lastPut
-//@   ensures puts == old(puts) + 1 && lastPut == ops
+//@   modifies puts, lastPut, lastPutFailed
+//@   ensures puts == old(puts) + 1 && lastPut == ops && lastPutFailed == (result != nil)
 //
 //@ iface unpublishedOperationStore.DeleteAll
+//@   modifies unpubDeletes
+//@   ensures unpubDeletes == old(unpubDeletes) + 1
 //
+//@ ghost lastProvided []*operation.AnchoredOperation
 //@ iface api/protocol.OperationProvider.GetTxnOperations
 //@   results ops, err
-//@   modifies provFailed
-//@   ensures provFailed == (err != nil)
+//@   modifies provFailed, lastProvided
+//@   ensures provFailed == (err != nil) && lastProvided == ops
 //@   ensures err == nil ==> opsNonNil(ops)
 //
 //@ func updateAnchoredOperation
@@ -56,13 +61,18 @@ package txnprocessor
 //@   ensures err != nil ==> r0 == 0
 //@   ensures err == nil ==> r0 == len(lastPut)
 //@   ensures provFailed == old(provFailed)
+//   all-or-nothing: a transaction whose store write failed deletes nothing from the unpublished-operation store and is an
+//   error; the transaction that was handed in is not altered
+//@   ensures lastPutFailed ==> unpubDeletes == old(unpubDeletes) && err != nil
+//@   ensures unpubDeletes <= old(unpubDeletes) + 1
+//@   ensures sidetreeTxn.EquivalentReferences == old(sidetreeTxn.EquivalentReferences) && sidetreeTxn.ProtocolVersion == old(sidetreeTxn.ProtocolVersion) && sidetreeTxn.CanonicalReference == old(sidetreeTxn.CanonicalReference) && sidetreeTxn.TransactionTime == old(sidetreeTxn.TransactionTime) && sidetreeTxn.TransactionNumber == old(sidetreeTxn.TransactionNumber)
 //@   modifies *
 //
 //@ func (*TxnProcessor).Process
 //@   requires p != nil && p.Providers != nil && p.OpStore != nil && p.unpublishedOperationStore != nil && p.OperationProtocolProvider != nil
 //   the operations are stamped from the transaction that was handed in, complete (not from a partial copy of it)
-//@   atcall processTxnOperations arg2 != nil && arg2.TransactionTime == sidetreeTxn.TransactionTime && arg2.TransactionNumber == sidetreeTxn.TransactionNumber && arg2.AnchorString == sidetreeTxn.AnchorString && arg2.Namespace == sidetreeTxn.Namespace && arg2.ProtocolVersion == sidetreeTxn.ProtocolVersion && arg2.CanonicalReference == sidetreeTxn.CanonicalReference && arg2.EquivalentReferences == sidetreeTxn.EquivalentReferences
-//@   atcall GetTxnOperations arg1 != nil && arg1.AnchorString == sidetreeTxn.AnchorString && arg1.Namespace == sidetreeTxn.Namespace && arg1.ProtocolVersion == sidetreeTxn.ProtocolVersion
+//@   atcall processTxnOperations arg1 == lastProvided && arg2 != nil && arg2.TransactionTime == sidetreeTxn_0.TransactionTime && arg2.TransactionNumber == sidetreeTxn_0.TransactionNumber && arg2.AnchorString == sidetreeTxn_0.AnchorString && arg2.Namespace == sidetreeTxn_0.Namespace && arg2.ProtocolVersion == sidetreeTxn_0.ProtocolVersion && arg2.CanonicalReference == sidetreeTxn_0.CanonicalReference && arg2.EquivalentReferences == sidetreeTxn_0.EquivalentReferences
+//@   atcall GetTxnOperations arg1 != nil && arg1.AnchorString == sidetreeTxn_0.AnchorString && arg1.Namespace == sidetreeTxn_0.Namespace && arg1.ProtocolVersion == sidetreeTxn_0.ProtocolVersion
 //@   ensures provFailed ==> puts == old(puts) && err != nil && r0 == 0
 //@   ensures puts <= old(puts) + 1
 //@   ensures !provFailed ==> puts == old(puts) + 1
